@@ -8,6 +8,9 @@
    decos  : "~" or records separated by ";", fields separated by ":" :
             lead:comments:indent:mid1:mid2:quote:trail:tcomment:bracenl
             (hex strings; comments = hex strings separated by "|"; tcomment "-" = none or "c"<hex>)
+   Second family, the value store behind a node (coq/C08/MetaModel.v):
+     <id> m <value> <op> ...      value = chunks as above ("-" = empty); op = newv news newi newg newb kind str vec iter self buf ref clone
+     X <id> m <value> <op> ...    handed on unchanged;  M = meta_run, S = spec_run (every answered view shows the stored text)
    Output:
      X <id> <fmt> <accept> <text>     the case for harness/c09_roundtrip.c (text = print style deco items)
      M <id> t<len>.<hash> r<ret> d<tree the model parses> L0
@@ -95,15 +98,49 @@ let rec dump_forest (f : tree list) : string =
   String.concat "" (List.map (fun (T (n, v, k)) ->
     "(x" ^ abbr n ^ "," ^ (match v with None | Some [] -> "n" | Some b -> "v" ^ abbr b) ^ "," ^ dump_forest k ^ ")") f)
 
+(* ---- value store family *)
+let op_of_string = function
+  | "newv" -> ONewV | "news" -> ONewS | "newi" -> ONewI | "newg" -> ONewG | "newb" -> ONewB | "kind" -> OKind | "str" -> OStr | "vec" -> OVec
+  | "iter" -> OIter | "self" -> OSelf | "buf" -> OBuf | "ref" -> ORef | "clone" -> OClone
+  | s -> failwith ("bad op " ^ s)
+let show_bytes l = if l = [] then "-" else abbr l
+let b01 b = if b then "1" else "0"
+let show_obs = function
+  | BNew ok -> "N" ^ b01 ok
+  | BNone -> "X"
+  | BKind (r, f) -> Printf.sprintf "K%d:%s" (int_of_z r) (hexz f)
+  | BStr (Inl c) -> Printf.sprintf "S!%d" (int_of_z c)
+  | BStr (Inr t) -> "S" ^ show_bytes t
+  | BVec (n, t) -> Printf.sprintf "V%d:%s" (int_of_z n) (show_bytes t)
+  | BIter (Inl c) -> Printf.sprintf "I!%d" (int_of_z c)
+  | BIter (Inr ((els, a), r)) ->
+    Printf.sprintf "I%s/%d/%d"
+      (if els = [] then "none" else String.concat "," (List.map (fun (str, e) -> (if str then "s" else "v") ^ show_bytes e) els))
+      (int_of_z a) (int_of_z r)
+  | BSelf ok -> "P" ^ b01 ok
+  | BBuf (Inl c) -> Printf.sprintf "B!%d" (int_of_z c)
+  | BBuf (Inr n) -> Printf.sprintf "B%d" (int_of_z n)
+  | BRef r -> Printf.sprintf "R%d" (int_of_z r)
+  | BClone ok -> "C" ^ b01 ok
+
 let code z = let c = int_of_z z in if c = -9999 then "FAULT" else if c = -9998 then "FUEL" else string_of_int c
+
+(* --raw: mpt_parse_option as patched by docs/C09_option_name_blank.diff (see [allow] in coq/C08/ParseModel.v) *)
+let raw_variant = Array.exists (fun a -> a = "--raw") Sys.argv
 
 let () =
   let ic = open_in Sys.argv.(1) in
   List.iter (fun line ->
     match split_ws line with
+    | id :: "m" :: value :: ops ->
+      let v = if value = "-" then [] else chunks value in
+      let ol = List.map op_of_string ops in
+      Printf.printf "X %s\n" line;
+      Printf.printf "M %s %s L0\n" id (String.concat " " (List.map show_obs (meta_run v None ol)));
+      Printf.printf "S %s %s L0\n" id (String.concat " " (List.map show_obs (spec_run v None None ol)))
     | id :: st :: acc :: items :: decos :: _ ->
       let style = (match st with "p" -> StPre | "x" -> StEnc | "y" -> StEncD | _ -> StSep) in
-      let (_, al) = parse_accept allow_init (cstr acc) in
+      let (_, al) = parse_accept (allow_variant allow_init raw_variant) (cstr acc) in
       let its = parse_items items in
       let ds = parse_decos decos in
       let text = print style ds its in
@@ -112,7 +149,9 @@ let () =
       Printf.printf "X %s %s %s %s\n" id fmt acc (rle itext);
       let (ret, tr) = parse_tree style al text in
       Printf.printf "M %s t%d.%08x r%s d%s L0\n" id (List.length itext) (fnv itext) (code ret) (dump_forest tr);
-      if wf_items style al its then
+      (* the specification is the full claim: names with white space wherever the style can carry it, that is
+         well-formedness for the patched variant of mpt_parse_option whatever variant the model runs *)
+      if wf_items style (allow_variant al true) its then
         Printf.printf "S %s t* r0 d%s L0\n" id (dump_forest (abs_items its))
       else
         Printf.printf "S %s t* r* d* L0\n" id
